@@ -1,5 +1,5 @@
 use crate::{
-    cfg::Cfg,
+    cfg::{Cfg, RegisterSet},
     parser::{HasIdentity, HasRegisterSets, InstructionProperties, Register},
     passes::{DiagnosticLocation, DiagnosticManager, LintError, LintPass},
 };
@@ -15,7 +15,10 @@ impl LintPass for GarbageInputValueCheck {
         for node in cfg {
             if node.is_program_entry() {
                 // get registers
-                let garbage = node.live_in() - Register::program_args_set();
+                // (besides its arguments the program is handed a valid stack pointer: it may
+                // build a frame of its own below it)
+                let stack_pointer: RegisterSet = [Register::X2].into_iter().collect();
+                let garbage = node.live_in() - Register::program_args_set() - stack_pointer;
                 if !garbage.is_empty() {
                     let mut ranges = Vec::new();
                     for reg in &garbage {
